@@ -4,7 +4,7 @@
 D=$1; WT=/tmp/wt/verify
 export GOFLAGS=-mod=mod GOPROXY=off GOSUMDB=off
 git -C $WT checkout -q -- . ; git -C $WT clean -fdq
-declare -A PK=( [parse]=pkg/parse [syslutil]=pkg/syslutil [loader]=pkg/loader [sequencediagram]=pkg/sequencediagram [integrationdiagram]=pkg/integrationdiagram [parse_test]=pkg/parse [loader_test]=pkg/loader [syslutil_test]=pkg/syslutil )
+declare -A PK=( [parse]=pkg/parse [syslutil]=pkg/syslutil [loader]=pkg/loader [sequencediagram]=pkg/sequencediagram [integrationdiagram]=pkg/integrationdiagram [parse_test]=pkg/parse [loader_test]=pkg/loader [syslutil_test]=pkg/syslutil [main]=cmd/sysl [exporter]=pkg/exporter [pbutil]=pkg/pbutil [cmdutils]=pkg/cmdutils [datamodeldiagram]=pkg/datamodeldiagram [database]=pkg/database [importer]=pkg/importer [relmod]=pkg/arrai/relmod [parser]=pkg/grammar [mermaid]=pkg/mermaid )
 pkgs=""
 place() { for t in $D/zz_*_test.go; do p=$(grep -m1 '^package ' $t | awk '{print $2}'); dir=${PK[$p]}; [ -z "$dir" ] && { echo "unknown package $p"; exit 3; }; cp $t $WT/$dir/; pkgs="$pkgs ./$dir"; done; }
 RACE=""; grep -qi "go test -race\|-race" $D/README.md && grep -qi "race detector" $D/README.md && RACE="-race"
